@@ -248,7 +248,92 @@ func runC19(c *ctx) {
 	}
 	var jobs []job
 	sweeps, sweptBlank := 0, 0
+	flush := func() {
+		// run in batches per driver process
+		const batch = 100
+		type batchRes struct {
+			res []map[string]any
+			err error
+		}
+		nb := (len(jobs) + batch - 1) / batch
+		results := make([]batchRes, nb)
+		sem := make(chan struct{}, 14)
+		var wg sync.WaitGroup
+		for b := 0; b < nb; b++ {
+			wg.Add(1)
+			go func(b int) {
+				defer wg.Done()
+				sem <- struct{}{}
+				defer func() { <-sem }()
+				i, j := b*batch, (b+1)*batch
+				if j > len(jobs) {
+					j = len(jobs)
+				}
+				var reqs []map[string]any
+				for _, jb := range jobs[i:j] {
+					reqs = append(reqs, map[string]any{"pkg": jb.e.idx, "mode": "lex", "input": hexOf(jb.input), "chunk": jb.chunk})
+				}
+				r, err := runDriver(bin, reqs)
+				results[b] = batchRes{r, err}
+			}(b)
+		}
+		wg.Wait()
+		for b := 0; b < nb; b++ {
+			i, j := b*batch, (b+1)*batch
+			if j > len(jobs) {
+				j = len(jobs)
+			}
+			reqs := jobs[i:j]
+			res, err := results[b].res, results[b].err
+			if err != nil {
+				// a process-fatal crash of the emitted code: find the request that was being processed
+				k := len(res)
+				if k < len(reqs) {
+					jb := jobs[i+k]
+					c.violate(violation{Case: jb.e.spec.name + "/" + jb.name, Input: map[string]any{"spec": jb.e.spec.text, "input": jb.input}, Observed: "the driver process died: " + err.Error(), Expected: "a token stream"})
+				}
+				continue
+			}
+			for k, jb := range jobs[i:j] {
+				if k >= len(res) {
+					break
+				}
+				c.eval()
+				if !utf8.ValidString(jb.input) {
+					end, _ := res[k]["end"].(string)
+					if end == "" || strings.HasPrefix(end, "PANIC") || strings.HasPrefix(end, "RUNAWAY") {
+						c.violate(violation{Case: jb.e.spec.name + "/" + jb.name, Input: map[string]any{"spec": jb.e.spec.name, "input": jb.input}, Observed: "on invalid UTF-8: " + end, Expected: "terminates with an error or EOF"})
+					}
+					continue
+				}
+				sim := simulateLexer(jb.e.dfa, jb.e.owner, jb.input)
+				if len(sim.Toks) >= 2 || (sim.End == "ERR" && len(sim.Toks) >= 1) {
+					c.nontrivial(jb.e.spec.name + "\x00" + jb.input)
+				}
+				c.count("tokens_expected", int64(len(sim.Toks)))
+				if d, exp := compareLexing(sim, res[k]); d != "" {
+					in := jb.input
+					if len(in) > 400 {
+						in = fmt.Sprintf("%q…(%d bytes)…%q", in[:60], len(in)-260, in[len(in)-200:])
+					}
+					c.violate(violation{Case: jb.e.spec.name + "/" + jb.name, Input: map[string]any{"spec": jb.e.spec.text, "input": in, "read_chunk": jb.chunk}, Observed: d, Expected: exp})
+				}
+				if c.res.Evaluations%499 == 1 {
+					in := jb.input
+					if len(in) > 200 {
+						in = in[:80] + "…" + in[len(in)-80:]
+					}
+					c.sample(map[string]any{"spec": jb.e.spec.name, "input": in, "tokens": len(sim.Toks), "end": sim.End})
+				}
+			}
+		}
+		jobs = jobs[:0]
+	}
+	fullSweeps := 0
 	for _, e := range usable {
+		if len(jobs) >= 8000 {
+			flush() // earlier specifications' jobs: run, judge, forget (bounds memory)
+		}
 		g := &lexGen{d: e.dfa, owner: e.owner, r: r}
 		add := func(name, in string, chunk int) { jobs = append(jobs, job{e, in, chunk, name}) }
 		add("empty", "", 0)
@@ -284,6 +369,10 @@ func runC19(c *ctx) {
 		if c.quick() && ((blankTokens && sweptBlank >= 1) || (!blankTokens && sweeps-sweptBlank > 3)) {
 			continue
 		}
+		if c.thorough() && ((blankTokens && sweptBlank >= 4) || (!blankTokens && sweeps-sweptBlank > 16)) {
+			continue
+		}
+		fullSweeps++
 		if blankTokens {
 			sweptBlank++
 		}
@@ -303,8 +392,9 @@ func runC19(c *ctx) {
 			if blankTokens && !near && p%512 != 0 {
 				continue
 			}
-			if c.thorough() && p <= 3*8192 {
-				near = near || p <= 3*4096+16
+			if c.thorough() && fullSweeps <= 3 {
+				// the first specifications: every padding up to one buffer, every 4th up to three
+				near = near || p <= 4096+160 || (p <= 3*4096+16 && p%4 == 0)
 			}
 			if near || p%16 == 0 && (c.thorough() || p%64 == 0) {
 				pads = append(pads, p)
@@ -328,82 +418,6 @@ func runC19(c *ctx) {
 			}
 		}
 	}
-	// run in batches per driver process
-	const batch = 100
-	type batchRes struct {
-		res []map[string]any
-		err error
-	}
-	nb := (len(jobs) + batch - 1) / batch
-	results := make([]batchRes, nb)
-	sem := make(chan struct{}, 14)
-	var wg sync.WaitGroup
-	for b := 0; b < nb; b++ {
-		wg.Add(1)
-		go func(b int) {
-			defer wg.Done()
-			sem <- struct{}{}
-			defer func() { <-sem }()
-			i, j := b*batch, (b+1)*batch
-			if j > len(jobs) {
-				j = len(jobs)
-			}
-			var reqs []map[string]any
-			for _, jb := range jobs[i:j] {
-				reqs = append(reqs, map[string]any{"pkg": jb.e.idx, "mode": "lex", "input": hexOf(jb.input), "chunk": jb.chunk})
-			}
-			r, err := runDriver(bin, reqs)
-			results[b] = batchRes{r, err}
-		}(b)
-	}
-	wg.Wait()
-	for b := 0; b < nb; b++ {
-		i, j := b*batch, (b+1)*batch
-		if j > len(jobs) {
-			j = len(jobs)
-		}
-		reqs := jobs[i:j]
-		res, err := results[b].res, results[b].err
-		if err != nil {
-			// a process-fatal crash of the emitted code: find the request that was being processed
-			k := len(res)
-			if k < len(reqs) {
-				jb := jobs[i+k]
-				c.violate(violation{Case: jb.e.spec.name + "/" + jb.name, Input: map[string]any{"spec": jb.e.spec.text, "input": jb.input}, Observed: "the driver process died: " + err.Error(), Expected: "a token stream"})
-			}
-			continue
-		}
-		for k, jb := range jobs[i:j] {
-			if k >= len(res) {
-				break
-			}
-			c.eval()
-			if !utf8.ValidString(jb.input) {
-				end, _ := res[k]["end"].(string)
-				if end == "" || strings.HasPrefix(end, "PANIC") || strings.HasPrefix(end, "RUNAWAY") {
-					c.violate(violation{Case: jb.e.spec.name + "/" + jb.name, Input: map[string]any{"spec": jb.e.spec.name, "input": jb.input}, Observed: "on invalid UTF-8: " + end, Expected: "terminates with an error or EOF"})
-				}
-				continue
-			}
-			sim := simulateLexer(jb.e.dfa, jb.e.owner, jb.input)
-			if len(sim.Toks) >= 2 || (sim.End == "ERR" && len(sim.Toks) >= 1) {
-				c.nontrivial(jb.e.spec.name + "\x00" + jb.input)
-			}
-			c.count("tokens_expected", int64(len(sim.Toks)))
-			if d, exp := compareLexing(sim, res[k]); d != "" {
-				in := jb.input
-				if len(in) > 400 {
-					in = fmt.Sprintf("%q…(%d bytes)…%q", in[:60], len(in)-260, in[len(in)-200:])
-				}
-				c.violate(violation{Case: jb.e.spec.name + "/" + jb.name, Input: map[string]any{"spec": jb.e.spec.text, "input": in, "read_chunk": jb.chunk}, Observed: d, Expected: exp})
-			}
-			if c.res.Evaluations%499 == 1 {
-				in := jb.input
-				if len(in) > 200 {
-					in = in[:80] + "…" + in[len(in)-80:]
-				}
-				c.sample(map[string]any{"spec": jb.e.spec.name, "input": in, "tokens": len(sim.Toks), "end": sim.End})
-			}
-		}
-	}
+
+	flush()
 }
